@@ -194,8 +194,81 @@ def check_script(ctx, results, ops, name):
     return ok
 
 
+def apply_op(cur, op, arg):
+    if op == 'execute':
+        cur.execute(stmt_for(arg))
+        return 'exec' + state(cur)
+    if op == 'fetchone':
+        return show_out(cur.fetchone()) + state(cur)
+    if op == 'fetchmany':
+        return show_out(cur.fetchmany()) + state(cur)
+    if op in ('fetchmany0', 'fetchmany1', 'fetchmany2'):
+        return show_out(cur.fetchmany(int(op[-1]))) + state(cur)
+    if op == 'fetchall':
+        return show_out(cur.fetchall()) + state(cur)
+    if op == 'iter1':
+        got = []
+        for row in cur:
+            got.append(row)
+            break
+        return show_out(got) + state(cur)
+    if op == 'iterall':
+        return show_out(list(cur)) + state(cur)
+    if op == 'arraysize2':
+        cur.arraysize = 2
+        return 'ok' + state(cur)
+    raise KeyError(op)
+
+
+def multi_cursor_layer(ctx, ncases):
+    """several cursors of one connection, obtained from conn.cursor() and from conn.execute(), used interleaved:
+    by the frame theorem every cursor must behave as its own calls alone dictate"""
+    rng = ctx.rng
+    for case in range(ncases):
+        sizes = [rng.range(0, 5), rng.range(0, 5)]
+        results = mkresults(sizes)
+        conn = impl.connection([impl.HTable('r%d' % k, [('x', int), ('y', str)], rows) for k, rows in enumerate(results)])
+        ncur = rng.range(2, 4)
+        cursors = [None] * ncur
+        scripts = [[] for _ in range(ncur)]
+        outs = [[] for _ in range(ncur)]
+        history = []
+        for step in range(rng.range(4, 24)):
+            i = rng.below(ncur)
+            try:
+                if cursors[i] is None:
+                    if rng.chance(1, 2):
+                        arg = rng.below(2)
+                        cursors[i] = conn.execute(stmt_for(arg))       # a new cursor with a result
+                        scripts[i].append(('execute', arg))
+                        outs[i].append('exec' + state(cursors[i]))
+                        history.append((i, 'conn.execute', arg))
+                    else:
+                        cursors[i] = conn.cursor()
+                        history.append((i, 'conn.cursor', None))
+                    continue
+                op = rng.choice(OPS)
+                arg = rng.below(2) if op == 'execute' else None
+                history.append((i, op, arg))
+                scripts[i].append((op, arg))
+                outs[i].append(apply_op(cursors[i], op, arg))
+            except Exception as exc:  # noqa: BLE001
+                outs[i].append('EXC:' + type(exc).__name__)
+        for i in range(ncur):
+            if not scripts[i]:
+                continue
+            line = line_for(results, scripts[i])
+            nontrivial = any(o == 'execute' for o, _ in scripts[i]) and len(scripts[i]) >= 2
+            ctx.count('multi-cursor')
+            ctx.check('multi-cursor', [line], lambda i=i: ' ; '.join(outs[i]), nontrivial=nontrivial,
+                      payload={'results': results, 'history': history, 'cursor': i}, meta={'history': history, 'cursor': i})
+        if ctx.stop():
+            return
+
+
 def run(ctx):
     rng = ctx.rng
+    multi_cursor_layer(ctx, 400 if ctx.thorough() else 80)
     maxlen = 4 if ctx.thorough() else 3
     # exhaustive short sequences: first op is execute or not
     for size in range(0, 4):
